@@ -65,6 +65,9 @@ pub fn record(args: &[String]) {
         let sets: Vec<(&str, Vec<Vec<f64>>)> = vec![
             ("rosen2", vec![vec![0.2, 0.1], vec![-1.5, 2.5], vec![3.0, -2.0], vec![0.9, 0.8], vec![-0.1, 4.0]]),
             ("gauss-ill", vec![vec![1.0, 2.0], vec![-2.0, 1.0], vec![6.0, -3.0], vec![0.0, 0.0]]),
+            // identical start points: each chain still has its own first momentum, hence its own start value
+            ("rosen2-same-start", vec![vec![-1.5, 2.5]; 8]),
+            ("gauss-ill-same-start", vec![vec![-2.0, 1.0]; 8]),
         ];
         for (si, (name, inits)) in sets.iter().enumerate() {
             for (mode, (nc, nd)) in [(0usize, 0usize), (6, 10), (4, 3)].into_iter().enumerate().map(|(i, (a, b))| (i, (a.max(4), b))) {
@@ -80,7 +83,9 @@ pub fn record(args: &[String]) {
                                 let tp = Tensor::<B64, 1>::from_data(TensorData::new(p0, [x0.len()]), &dev);
                                 mini_mcmc::nuts::verif_api::find_reasonable_epsilon::<B64, f64, _>(tx, tp, &$target)
                             }).collect();
-                            if progress { let _ = smp.run_progress(nc, nd); } else { let _ = smp.run(nc, nd); }
+                            // identical starts: one worker, so that the chains run strictly one after the other
+                            let pool = rayon::ThreadPoolBuilder::new().num_threads(if name.ends_with("same-start") { 1 } else { 4 }).build().unwrap();
+                            pool.install(|| if progress { let _ = smp.run_progress(nc, nd); } else { let _ = smp.run(nc, nd); });
                             smp.verif_chains().iter().enumerate().map(|(i, ch)| {
                                 let (m, _nd, eps, _eb, _hb, mu) = ch.verif_state();
                                 json!({"e": "multi", "set": name, "chain": i, "chains": inits.len(), "nd": nd, "progress": progress, "m": m,
@@ -89,7 +94,7 @@ pub fn record(args: &[String]) {
                             }).collect::<Vec<Value>>()
                         }};
                     }
-                    if si == 0 { go!(Rosenbrock2D::<f64> { a: 1.0, b: 10.0 }) } else { go!(GaussP { prec: vec![vec![5.0, -2.0], vec![-2.0, 1.0]] }) }
+                    if si % 2 == 0 { go!(Rosenbrock2D::<f64> { a: 1.0, b: 10.0 }) } else { go!(GaussP { prec: vec![vec![5.0, -2.0], vec![-2.0, 1.0]] }) }
                 });
                 match res {
                     Ok(evs) => for e in evs { out.push(&e); },
